@@ -8,6 +8,12 @@ import (
 
 	"github.com/bnb-chain/tss-lib/v2/tss"
 
+	"math/big"
+
+	"verif/internal/fix"
+	"verif/internal/netrun"
+	"verif/internal/ref"
+
 	"verif/internal/core"
 	"verif/internal/protomc"
 	"verif/internal/scen"
@@ -81,6 +87,7 @@ func Run(r *core.Run) {
 		}
 		fmt.Printf("  %-50s %-45s states=%d trans=%d terminals/runs=%d outcomes=%d\n", j.sc.Name, mode, st.States, st.Transitions, st.Terminals, st.DistinctOutcomes)
 	}
+	refusals(r)
 	r.Set("states", states)
 	r.Set("transitions", trans)
 	r.Set("traces_validated_against_impl", traces)
@@ -88,4 +95,39 @@ func Run(r *core.Run) {
 	r.Assume("party independence validated by joint replays (traces_validated_against_impl)")
 	r.Assume("ECDSA parties use the 5 vendored pre-parameter sets (n <= 5)")
 	r.Set("process_default_curve", "set to the other curve than the protocol's (edwards25519 while ECDSA runs, secp256k1 while EdDSA runs)")
+}
+
+// refusals: inadmissible party-key sets (an id that is 0 modulo the group order, two ids congruent
+// modulo it) must be REFUSED: no party may hand over key data (DESIGN 3a: positive runs use admissible
+// configurations only, the others are checked as refused).
+func refusals(r *core.Run) {
+	for _, cv := range []struct {
+		proto netrun.Proto
+		c     *ref.Curve
+	}{{netrun.EddsaKeygen, ref.Ed25519}, {netrun.EcdsaKeygen, ref.Secp256k1}} {
+		q := cv.c.N
+		k := big.NewInt(5)
+		sets := map[string][]*big.Int{
+			"k,k+q,7":  {k, new(big.Int).Add(k, q), big.NewInt(7)},
+			"k,k+2q,7": {k, new(big.Int).Add(k, new(big.Int).Lsh(q, 1)), big.NewInt(7)},
+			"q,3,4":    {new(big.Int).Set(q), big.NewInt(3), big.NewInt(4)},
+			"2q,3,4":   {new(big.Int).Lsh(q, 1), big.NewInt(3), big.NewInt(4)},
+			"3,3,4":    {big.NewInt(3), big.NewInt(3), big.NewInt(4)},
+		}
+		for name, ids := range sets {
+			cfg := netrun.Config{Proto: cv.proto, Keys: ids, Threshold: 1, Seed: r.Seed, Label: "refusal-" + name, PreParams: fix.PreParams()}
+			nw, err := netrun.New(cfg)
+			r.Count("refusal_runs", 1)
+			if err != nil {
+				continue // refused at construction: fine
+			}
+			nw.RunFIFO()
+			for p, n := range nw.Nodes {
+				if len(n.Ends) > 0 {
+					r.Violate(fmt.Sprintf("%s/inadmissible-ids-accepted/%s", cv.proto, name), fmt.Sprintf("keygen handed over key data at party %d for the inadmissible id set {%s} (an id 0 modulo the group order / two ids congruent modulo it)", p, name), name)
+					break
+				}
+			}
+		}
+	}
 }
